@@ -97,11 +97,16 @@ def check(rep, spec):
     pts = np.array(spec["points"], dtype=np.float32 if f32 else np.float64)
     soma, bf, K, ex, sort, cls = spec["soma"], spec["bf"], spec["furcations"], spec["exclude_soma"], spec["sort"], spec["cls"]
     carrier = "PointsToCuntzMST.__call__"
+    kw = {}
+    if spec.get("names"):  # column names other than the default ones (constructor argument `names=`)
+        from swcgeom.core.swc_utils import SWCNames
+
+        kw["names"] = SWCNames(*spec["names"])
     try:
         if cls == "mst":
-            tr = PointsToMST(K, exclude_soma=ex, sort=sort)
+            tr = PointsToMST(K, exclude_soma=ex, sort=sort, **kw)
         else:
-            tr = PointsToCuntzMST(bf=bf, furcations=K, exclude_soma=ex, sort=sort)
+            tr = PointsToCuntzMST(bf=bf, furcations=K, exclude_soma=ex, sort=sort, **kw)
         if spec.get("warmup"):
             # a transform object is reusable: what it built for an earlier (tiny) cloud must not influence this call
             tr(np.array(spec["warmup"], dtype=np.float64))
@@ -114,6 +119,9 @@ def check(rep, spec):
         P = [tuple(map(float, soma))] + P
     n = len(P)
     ids, pid, xyz = [int(v) for v in t.id()], [int(v) for v in t.pid()], np.array(t.xyz(), dtype=np.float64)
+    if spec.get("names") and sorted(t.ndata.keys()) != sorted(spec["names"]):
+        # FINDING (sort=True): _sort_tree writes the new numbering into columns "id" / "pid" instead of the columns that carry the ids under the given names
+        rep(carrier, "columns-are-the-seven-named-ones", spec, f"columns {sorted(t.ndata.keys())}", f"columns {sorted(spec['names'])}")
 
     # well-formed
     problem = None
@@ -264,11 +272,20 @@ def run(ctx):
             if gap is not None and gap <= 1e-2:
                 ties += 1
             ctx.case("far-cloud-float32", dict(n=n, first=list(pts[0]), cfg=list(cfg), soma=soma is not None))
+    # column names other than the default ones: the same clauses (the tree is read through its own names)
+    for r in range(8 if quick else 40):
+        n = rng.randint(3, 9)
+        pts = [tuple(round(rng.uniform(0, 10), 4) for _ in range(3)) for _ in range(n)]
+        for sort in (False, True):
+            sp = mk_spec(pts, None if r % 2 else (5.0, 5.0, 5.0), CONFIGS[r % len(CONFIGS)], sort)
+            sp["names"] = ["ID", "T", "X", "Y", "Z", "R", "PID"]
+            check(rep, sp)
+            ctx.case("given-column-names", dict(n=n, first=list(pts[0]), cfg=list(CONFIGS[r % len(CONFIGS)]), sort=sort))
     if ties:
         ctx.notes.append(f"{ties} cases met a near tie (< 1e-9) in the greedy simulation; their parent tables were not compared")
     ctx.rule(f"every subset of 2..{kmax} points of a generically perturbed 3x3x2 grid (rotating first point, soma given for a third, sort on/off alternating) with the plain-MST "
              f"configuration and one rotating configuration out of {len(CONFIGS)} (class, bf in 0..1, branching limit in -1,1,2,3, root exempt or not); {nrand} seeded random clouds of 2..{nmaxpts} "
-             "points x 4-5 configurations, every second one on a transform object that was first applied to a 2-point cloud; float32 clouds of 4..24 points offset by ~1e3 from the origin. Non-trivial = every case (>= 2 points).", exhaustive=False)
+             "points x 4-5 configurations, every second one on a transform object that was first applied to a 2-point cloud; float32 clouds of 4..24 points offset by ~1e3 from the origin; small clouds built with non-default column names, sort on and off. Non-trivial = every case (>= 2 points).", exhaustive=False)
 
 
 def replay(spec):
